@@ -70,6 +70,9 @@ func c13Gen(class string, seed uint64, tier string) *vfScenario {
 		kind = []string{"readfrom", "writeto", "readfromc"}[rng.IntN(3)]
 	}
 	op := vfOp{K: kind, H: 0, N: L, B: int64(rng.IntN(1 << 20))}
+	if kind == "writeto" {
+		op.A = int64(rng.IntN(2)) // 1: a sink the scheduler paces
+	}
 	switch kind {
 	case "readat", "writeat":
 		op.Off = int64(start)
